@@ -111,9 +111,10 @@ PROPS = {
     ),
     "C23": dict(
         verus=["rc4", "objkey"],
+        standins=["crypto-ref"],
         kani=[K("c05_perm_new_and_flags", "encryption/permissions.rs", "Permissions::new/from_flags/flags/all")] +
              [K(f"c23_pad_password_{n}", "encryption/standard_security.rs", "StandardSecurityHandler::pad_password") for n in (0, 1, 31, 32, 33)],
-        not_decided="AES-CBC/PKCS#7 (aes, cbc crates), MD5/SHA (md5, sha2 crates), Algorithms 2-10 glue pending",
+        not_decided="AES-CBC/PKCS#7 (aes, cbc crates), MD5/SHA (md5, sha2 crates); Algorithm 2 (compute_key_from_padded) is proved against the ISO definition with md5 uninterpreted; Algorithms 3, 4/5 and 2.B are compared with an independent transcription only by the bounded stand-in crypto-ref; Algorithms 8-10 (R5/R6 entries) not decided",
     ),
     "C26": dict(
         verus=["cmaprange"],
